@@ -163,6 +163,11 @@ func (u *uploader) Run() error {
 	if telemetry.DisabledOnPlatform {
 		return nil
 	}
+	if mode, _ := u.dir.Mode(); mode == "off" {
+		// Nothing is built or sent when telemetry is off, and nothing may be
+		// written either (findWork creates a missing upload directory).
+		return nil
+	}
 	todo := u.findWork()
 	ready, err := u.reports(&todo)
 	if err != nil {
